@@ -3,7 +3,8 @@
    Model: sys/Proto.v (see props/C04.v).
 
    PROVED (the ingredients): worker_steps_commute; placement_irrelevant_local (+ the stamp-only
-   difference for a slice that sends); message conservation and the order-preserving hops of C04.
+   difference for a slice that sends); single_sender_mailbox_order (from C04's per_link_fifo);
+   message conservation.
    The quantum is not a parameter of the model at all: a time slice is an oracle input, so
    `quantum_additive` (splitting a slice in two) is a statement about the VM (vm/Vm.v), not about
    the protocol.
@@ -15,7 +16,7 @@
    (Kahn-network determinism of M-Sys); `schedule_independence_partial` is the conjunction of the
    theorems below, and the schedule exploration of vplib/props/c03.py tests the global statement on
    the real code. *)
-From Quiver Require Import sys.Proto sys.ProtoCommute sys.ProtoMsg sys.ProtoFail.
+From Quiver Require Import sys.Proto sys.ProtoCommute sys.ProtoMsg sys.ProtoFifo sys.ProtoFail.
 
 Theorem C03_worker_steps_commute : forall s i j ki kj oi oj s1 s2,
   i <> j ->
@@ -37,6 +38,17 @@ Theorem C03_placement_only_stamps : forall i i' p pr d hint w w1 ev,
              /\ forget_log w2 = forget_log w1.
 Proof. exact placement_only_stamps. Qed.
 Print Assumptions C03_placement_only_stamps.
+
+(* one sender (worker) per mailbox: the arrival sequence is a prefix of the sender's send sequence,
+   whatever the schedule *)
+Theorem C03_single_sender_mailbox_order : forall nw sigma s,
+  0 < nw -> run (init nw) sigma = Good s ->
+  forall i ndi t j ndj,
+    nth_error (s_nodes s) i = Some ndi -> alookup t (e_router (s_env s)) = Some j -> nth_error (s_nodes s) j = Some ndj ->
+    Forall (fun x => m_w (snd x) = i) (ft t (w_arrlog (n_w ndj))) ->
+    exists in_flight, ft t (w_sentlog (n_w ndi)) = ft t (w_arrlog (n_w ndj)) ++ in_flight.
+Proof. exact single_sender_mailbox_order. Qed.
+Print Assumptions C03_single_sender_mailbox_order.
 
 Theorem C03_schedule_independence_partial :
   (forall s i j ki kj oi oj s1 s2, i <> j ->
